@@ -18,6 +18,10 @@ set, every pool, every configuration section and every concrete parser (unbounde
                            the single-shot answer: selection is a function of (pool, statement) only
   C09_memo_transparent / C09_memo_by_statement / C09_match_cache_is_memo   the match cache is a memo; keyed by the statement
                            itself it is transparent for every history; C09_memo_coarse_key_counterexample: keyed by `repr` it is not
+  C09_lru_transparent / C09_lru_by_statement / C09_match_lru_history_independent / C09_lru_eq_unbounded /
+  C09_fault_lru_history_independent / C09_lru_bounded   (round 5) the cache WITH the eviction of functools.lru_cache (128 entries,
+                           least recently used dropped): any capacity, any history - single-shot answers; never more than
+                           `n` entries; C09_lru_coarse_key_counterexample: eviction does not rescue a coarse key
   C09_fault_selected / _raised / _missing / _healthy / _touched / _history_independent   pools whose lazily configured members may
                            fail to come up: only the members up to the first decisive one matter, nothing below it is touched
   C09_resolves_iff_tables / C09_parse_error / C09_resolves_covers   the source skeleton of the parser
@@ -46,6 +50,7 @@ import ForML.Lemmas.C09Conf
 import ForML.Model.MatcherParser
 import ForML.Lemmas.C09Parser
 import ForML.Lemmas.C09Memo
+import ForML.Lemmas.C09Lru
 
 namespace ForML.Matcher
 
@@ -816,7 +821,68 @@ theorem C09_fault_history_independent (pool : FPool) (ss : List Source) :
     memoSeq id (fun s => (matchFault pool s).1.toExcept) ss = ss.map (fun s => (matchFault pool s).1.toExcept) :=
   C09_memo_by_statement _ ss
 
+/-! ### round 5: the eviction of `functools.lru_cache` (`maxsize = 128`, least recently used entry dropped) -/
+
+/-- A bounded LRU table of ANY capacity `n` (hits refresh their entry, a full table drops its least recently used entry,
+exceptions are not remembered) is transparent for every memoised function and every history on which the key is
+injective: eviction only ever forgets, it never makes an answer stale. -/
+theorem C09_lru_transparent {κ ε α : Type} [DecidableEq κ] (n : Nat) (key : Source → κ) (f : Source → Except ε α)
+    (ss : List Source) (hinj : ∀ a ∈ ss, ∀ b ∈ ss, key a = key b → a = b) : lruSeq n key f ss = ss.map f :=
+  lruSeqFrom_transparent n key f ss [] hinj (fun _ h => by cases h)
+
+/-- keyed by the statement itself: every capacity, every history, every memoised function -/
+theorem C09_lru_by_statement {ε α : Type} (n : Nat) (f : Source → Except ε α) (ss : List Source) :
+    lruSeq n id f ss = ss.map f :=
+  C09_lru_transparent n id f ss (fun _ _ _ _ h => h)
+
+/-- `Importer.match` as decorated in the code (`@functools.lru_cache`, 128 entries): every answer of one importer
+instance to ANY request history - however long, however many distinct statements, whatever got evicted in between -
+is the single-shot answer, so `C09_select` / `C09_missing_error` apply to it. -/
+theorem C09_match_lru_history_independent (pool : Pool) (ss : List Source) :
+    matchLru pool ss = ss.map (importerMatch pool) :=
+  C09_lru_by_statement _ _ ss
+
+/-- the bounded cache answers exactly as the unbounded one of `C09_match_history_independent`, whatever the capacity -/
+theorem C09_lru_eq_unbounded (n : Nat) (pool : Pool) (ss : List Source) :
+    lruSeq n id (importerMatch pool) ss = matchSeq pool ss := by
+  rw [C09_lru_by_statement, C09_match_history_independent]
+
+/-- … the same on pools whose lazily configured members may fail to come up -/
+theorem C09_fault_lru_history_independent (n : Nat) (pool : FPool) (ss : List Source) :
+    lruSeq n id (fun s => (matchFault pool s).1.toExcept) ss = ss.map (fun s => (matchFault pool s).1.toExcept) :=
+  C09_lru_by_statement n _ ss
+
+/-- the table never outgrows its capacity: after any history a fresh `lru_cache(maxsize = n)` holds at most `n` answers -/
+theorem C09_lru_bounded {κ ε α : Type} [DecidableEq κ] (n : Nat) (key : Source → κ) (f : Source → Except ε α)
+    (ss : List Source) : (lruStateFrom n key f [] ss).length ≤ n :=
+  lruStateFrom_bounded n key f ss [] (Nat.zero_le n)
+
+/-- eviction does not rescue a coarse key: with the code's capacity a cache keyed by `repr` still hands the second
+catalog version of `Customer` the feed of the first -/
+theorem C09_lru_coarse_key_counterexample :
+    ¬ ∀ (key : Source → String) (pool : Pool) (ss : List Source),
+        lruSeq lruDefaultSize key (importerMatch pool) ss = ss.map (importerMatch pool) := by
+  intro h
+  have h1 := h nameKey
+    [⟨.fin 2, [.table "Customer" [("id", .integer)]]⟩, ⟨.fin 2, [.table "Customer" [("id", .integer), ("segment", .string)]]⟩]
+    [.table "Customer" [("id", .integer)], .table "Customer" [("id", .integer), ("segment", .string)]]
+  revert h1
+  decide
+
 /-! ### non-vacuity (tests on concrete objects, not part of the claim) -/
+
+-- eviction really happens in the model: capacity 1, requests A B A - after B the entry of A is gone, after the hit on
+-- B (A B B) it is B's that stays; a hit moves its entry to the front (capacity 2: A B A leaves A in front of B); an
+-- uncovered statement (MissingError) is not remembered; capacity 0 keeps nothing; the answers are the single-shot ones
+example : (lruStateFrom 1 id (importerMatch [⟨.fin 1, [.table "A" [], .table "B" []]⟩]) []
+    [.table "A" [], .table "B" []]).map (·.1) = [.table "B" []] := by decide
+example : (lruStateFrom 2 id (importerMatch [⟨.fin 1, [.table "A" [], .table "B" []]⟩]) []
+    [.table "A" [], .table "B" [], .table "A" []]).map (·.1) = [.table "A" [], .table "B" []] := by decide
+example : (lruStateFrom 2 id (importerMatch [⟨.fin 1, [.table "A" []]⟩]) []
+    [.table "A" [], .table "B" []]).map (·.1) = [.table "A" []] := by decide
+example : (lruStateFrom 0 id (importerMatch [⟨.fin 1, [.table "A" []]⟩]) [] [.table "A" []]).length = 0 := by decide
+example : lruSeq 1 id (importerMatch [⟨.fin 1, [.table "A" []]⟩, ⟨.fin 2, [.table "B" []]⟩])
+    [.table "A" [], .table "B" [], .table "A" [], .table "C" []] = [.ok 0, .ok 1, .ok 0, .error .missing] := by decide
 
 private def qAB : Source := .query jAB .nil .none .nil .none .nil none
 
